@@ -587,6 +587,25 @@ class Builder:
             self.assign(tgt.value, app("starred", v))
 
 
+def prime(b: "Builder", fnode: ast.AST, upto: ast.AST, skip=()):
+    """Execute, in source order, the simple local assignments of `fnode` that precede `upto` (def-use substitution of
+    extracted temporaries), so that an expression at `upto` can be evaluated with locals expanded."""
+    limit = (getattr(upto, "lineno", 10 ** 9), getattr(upto, "col_offset", 0))
+    from .model import walk_ordered
+    for st in walk_ordered(fnode):
+        if isinstance(st, (ast.Assign, ast.AnnAssign)) and (st.lineno, st.col_offset) < limit and st is not upto:
+            tg = st.targets[0] if isinstance(st, ast.Assign) else st.target
+            if isinstance(tg, ast.Name) and tg.id not in skip and getattr(st, "value", None) is not None:
+                if tg.id in b.env and isinstance(b.env[tg.id], Rat) and b.env[tg.id].as_atom() is not None and b.env[tg.id].as_atom().op == "sym" \
+                        and b.env[tg.id].as_atom().args[0] != tg.id:
+                    continue    # a role symbol bound by the caller: keep it
+                try:
+                    b.stmt(st)
+                except Opaque:
+                    pass
+    return b
+
+
 def simple_function(node: ast.FunctionDef) -> bool:
     """Straight-line / if-else code without loops, try, yield (candidate for inlining)."""
     for n in ast.walk(node):
